@@ -273,7 +273,25 @@ def c20_witness(tier):
     return None
 
 
-FAMILIES = {"C13": c13_cases, "C03": c13_cases, "C14": c14_cases, "C16": c16_cases, "C17": c17_cases, "C11": c11_cases, "C08": c08_cases}
+def c15_cases(tier):
+    paths = [None, [], ["a"], ["a", 1, "b"], [0], ["a", ""], ["a/"], ["", "a"], [""], ["a", "b/"]]
+    for pth in paths:
+        for locs in (None, [], [[3, 4], [9, 9]]):
+            case = {"kind": "error_display", "message": "m", "path": pth, "locations": locs}
+
+            def oracle(res, pth=pth, locs=locs):
+                if res["exit"] != 0 or not res["out"]:
+                    return "Display panicked: %s" % res["stderr"]
+                want_path = "<query>" if pth is None else "/".join(str(x) for x in pth)
+                want_loc = "%d:%d" % (tuple(locs[0]) if locs else (0, 0))
+                want = "%s:%s: m" % (want_path, want_loc)
+                if res["out"]["display"] != want:
+                    return "Error{path: %r, locations: %r} displays %r, the property gives %r" % (pth, locs, res["out"]["display"], want)
+                return None
+            yield case, oracle
+
+
+FAMILIES = {"C15": c15_cases, "C13": c13_cases, "C03": c13_cases, "C14": c14_cases, "C16": c16_cases, "C17": c17_cases, "C11": c11_cases, "C08": c08_cases}
 
 
 def search_witness(pid, obligation, tier):
